@@ -133,50 +133,62 @@ theorem inv_downFail {s s' : Pair P} (hI : Inv H hash s) (h : step H hash s (.do
 theorem inv_upSigPeer {s s' : Pair P} (hI : Inv H hash s) (h : step H hash s (.upSigPeer) = some s') :
     Inv H hash s' := by
   obtain ⟨a1, a2, a3, a4, a5, a6, a7, a8, a9, a10, a11, a12, a13, a14, a15, a16, a17, a18, a19, a20, a21, a22, a23, a24, a25⟩ := hI
+  rcases s with ⟨up, down, circ, fwdFilter, addAcked, resp, respAcked, mbAdd, mbResp, known, sentUp, signedUp, downCommitted, downAdds, envBad⟩
+  dsimp only at *
   simp only [LndModel.C08.step] at h; cases h
-  rcases hu : s.up with _ | st | _ | ⟨r, st⟩ | r <;> (try cases st) <;> simp only [hu] at * <;> constructor <;> life_grind
+  rcases up with _ | st | _ | ⟨r, st⟩ | r <;> (try cases st) <;> dsimp only [Life.sigO, Life.revO, Life.revR] at * <;> constructor <;> life_grind
 
 theorem inv_upRevPeer {s s' : Pair P} (hI : Inv H hash s) (h : step H hash s (.upRevPeer) = some s') :
     Inv H hash s' := by
   obtain ⟨a1, a2, a3, a4, a5, a6, a7, a8, a9, a10, a11, a12, a13, a14, a15, a16, a17, a18, a19, a20, a21, a22, a23, a24, a25⟩ := hI
+  rcases s with ⟨up, down, circ, fwdFilter, addAcked, resp, respAcked, mbAdd, mbResp, known, sentUp, signedUp, downCommitted, downAdds, envBad⟩
+  dsimp only at *
   simp only [LndModel.C08.step] at h; cases h
-  rcases hu : s.up with _ | st | _ | ⟨r, st⟩ | r <;> (try cases st) <;> simp only [hu] at * <;> constructor <;> life_grind
+  rcases up with _ | st | _ | ⟨r, st⟩ | r <;> (try cases st) <;> dsimp only [Life.sigO, Life.revO, Life.revR] at * <;> constructor <;> life_grind
 
 theorem inv_upSigBob {s s' : Pair P} (hI : Inv H hash s) (h : step H hash s (.upSigBob) = some s') :
     Inv H hash s' := by
   obtain ⟨a1, a2, a3, a4, a5, a6, a7, a8, a9, a10, a11, a12, a13, a14, a15, a16, a17, a18, a19, a20, a21, a22, a23, a24, a25⟩ := hI
-  simp only [LndModel.C08.step, stepUpSigBob] at h
-  rcases hu : s.up with _ | st | _ | ⟨r, st⟩ | r <;> (try cases st) <;> simp only [hu] at * <;> cases h <;> constructor <;> life_grind
+  rcases s with ⟨up, down, circ, fwdFilter, addAcked, resp, respAcked, mbAdd, mbResp, known, sentUp, signedUp, downCommitted, downAdds, envBad⟩
+  dsimp only at *
+  rcases up with _ | st | _ | ⟨r, st⟩ | r <;> (try cases st) <;> simp only [LndModel.C08.step, stepUpSigBob, Life.sigR] at h <;> cases h <;> constructor <;> life_grind
 
 theorem inv_upRevBob {s s' : Pair P} (hI : Inv H hash s) (h : step H hash s (.upRevBob) = some s') :
     Inv H hash s' := by
   obtain ⟨a1, a2, a3, a4, a5, a6, a7, a8, a9, a10, a11, a12, a13, a14, a15, a16, a17, a18, a19, a20, a21, a22, a23, a24, a25⟩ := hI
+  rcases s with ⟨up, down, circ, fwdFilter, addAcked, resp, respAcked, mbAdd, mbResp, known, sentUp, signedUp, downCommitted, downAdds, envBad⟩
+  dsimp only at *
   simp only [LndModel.C08.step] at h; cases h
-  rcases hu : s.up with _ | st | _ | ⟨r, st⟩ | r <;> (try cases st) <;> simp only [hu] at * <;> constructor <;> life_grind
+  rcases up with _ | st | _ | ⟨r, st⟩ | r <;> (try cases st) <;> dsimp only [Life.sigO, Life.revO, Life.revR] at * <;> constructor <;> life_grind
 
 theorem inv_downSigBob {s s' : Pair P} (hI : Inv H hash s) (h : step H hash s (.downSigBob) = some s') :
     Inv H hash s' := by
   obtain ⟨a1, a2, a3, a4, a5, a6, a7, a8, a9, a10, a11, a12, a13, a14, a15, a16, a17, a18, a19, a20, a21, a22, a23, a24, a25⟩ := hI
-  simp only [LndModel.C08.step, stepDownSigBob] at h
-  rcases hd : s.down with _ | st | _ | ⟨r, st⟩ | r <;> (try cases st) <;> simp only [hd] at * <;> cases h <;> constructor <;> life_grind
+  rcases s with ⟨up, down, circ, fwdFilter, addAcked, resp, respAcked, mbAdd, mbResp, known, sentUp, signedUp, downCommitted, downAdds, envBad⟩
+  dsimp only at *
+  rcases down with _ | st | _ | ⟨r, st⟩ | r <;> (try cases st) <;> simp only [LndModel.C08.step, stepDownSigBob, Life.sigO] at h <;> cases h <;> constructor <;> life_grind
 
 theorem inv_downRevBob {s s' : Pair P} (hI : Inv H hash s) (h : step H hash s (.downRevBob) = some s') :
     Inv H hash s' := by
   obtain ⟨a1, a2, a3, a4, a5, a6, a7, a8, a9, a10, a11, a12, a13, a14, a15, a16, a17, a18, a19, a20, a21, a22, a23, a24, a25⟩ := hI
-  simp only [LndModel.C08.step] at h
-  rcases hd : s.down with _ | st | _ | ⟨r, st⟩ | r <;> (try cases st) <;> simp only [hd] at * <;> split at h <;> cases h <;> constructor <;> life_grind
+  rcases s with ⟨up, down, circ, fwdFilter, addAcked, resp, respAcked, mbAdd, mbResp, known, sentUp, signedUp, downCommitted, downAdds, envBad⟩
+  dsimp only at *
+  rcases down with _ | st | _ | ⟨r, st⟩ | r <;> (try cases st) <;> simp only [LndModel.C08.step, Life.revO] at h <;> split at h <;> cases h <;> constructor <;> life_grind
 
 theorem inv_downSigPeer {s s' : Pair P} (hI : Inv H hash s) (h : step H hash s (.downSigPeer) = some s') :
     Inv H hash s' := by
   obtain ⟨a1, a2, a3, a4, a5, a6, a7, a8, a9, a10, a11, a12, a13, a14, a15, a16, a17, a18, a19, a20, a21, a22, a23, a24, a25⟩ := hI
+  rcases s with ⟨up, down, circ, fwdFilter, addAcked, resp, respAcked, mbAdd, mbResp, known, sentUp, signedUp, downCommitted, downAdds, envBad⟩
+  dsimp only at *
   simp only [LndModel.C08.step] at h; cases h
-  rcases hd : s.down with _ | st | _ | ⟨r, st⟩ | r <;> (try cases st) <;> simp only [hd] at * <;> constructor <;> life_grind
+  rcases down with _ | st | _ | ⟨r, st⟩ | r <;> (try cases st) <;> dsimp only [Life.sigR] at * <;> constructor <;> life_grind
 
 theorem inv_downRevPeer {s s' : Pair P} (hI : Inv H hash s) (h : step H hash s (.downRevPeer) = some s') :
     Inv H hash s' := by
   obtain ⟨a1, a2, a3, a4, a5, a6, a7, a8, a9, a10, a11, a12, a13, a14, a15, a16, a17, a18, a19, a20, a21, a22, a23, a24, a25⟩ := hI
-  simp only [LndModel.C08.step, stepDownRevPeer] at h
-  rcases hd : s.down with _ | st | _ | ⟨r, st⟩ | r <;> (try cases st) <;> simp only [hd] at * <;> (try split at h) <;> cases h <;> constructor <;> life_grind
+  rcases s with ⟨up, down, circ, fwdFilter, addAcked, resp, respAcked, mbAdd, mbResp, known, sentUp, signedUp, downCommitted, downAdds, envBad⟩
+  dsimp only at *
+  rcases down with _ | st | _ | ⟨r, st⟩ | r <;> (try cases st) <;> simp only [LndModel.C08.step, stepDownRevPeer, Life.revR] at h <;> (try split at h) <;> cases h <;> constructor <;> life_grind
 
 theorem inv_setFwdFilter {s s' : Pair P} (hI : Inv H hash s) (h : step H hash s (.setFwdFilter) = some s') :
     Inv H hash s' := by
@@ -239,8 +251,10 @@ theorem inv_resendDown {s s' : Pair P} (hI : Inv H hash s) (h : step H hash s (.
 theorem inv_restart {s s' : Pair P} (hI : Inv H hash s) (h : step H hash s (.restart) = some s') :
     Inv H hash s' := by
   obtain ⟨a1, a2, a3, a4, a5, a6, a7, a8, a9, a10, a11, a12, a13, a14, a15, a16, a17, a18, a19, a20, a21, a22, a23, a24, a25⟩ := hI
+  rcases s with ⟨up, down, circ, fwdFilter, addAcked, resp, respAcked, mbAdd, mbResp, known, sentUp, signedUp, downCommitted, downAdds, envBad⟩
+  dsimp only at *
   simp only [LndModel.C08.step, stepRestart] at h; cases h
-  rcases hu : s.up with _ | st | _ | ⟨r, st⟩ | r <;> (try cases st) <;> rcases hd : s.down with _ | st | _ | ⟨r, st⟩ | r <;> (try cases st) <;> simp only [hu, hd] at * <;> constructor <;> life_grind
+  rcases up with _ | st | _ | ⟨r, st⟩ | r <;> (try cases st) <;> rcases down with _ | st | _ | ⟨r, st⟩ | r <;> (try cases st) <;> dsimp only [Life.restart] at * <;> constructor <;> life_grind
 
 theorem Inv.step {s s' : Pair P} {e : Ev P} (hI : Inv H hash s) (h : step H hash s e = some s') :
     Inv H hash s' := by
